@@ -708,12 +708,13 @@ def t8_join(ctx: Ctx) -> None:
     else:
         ctx.bad(R, j, j.node, 'an unknown join type falls through silently', key='_join:else')
     if 'LEFT' in branches and 'RIGHT' in branches:
-        a = _mirror_text(branches['LEFT'])
-        b = '\n'.join(norm(s) for s in branches['RIGHT'])
-        if a == b:
-            ctx.ok(R, j, branches['LEFT'][0], 'LEFT branch mirrored (left<->right, PairLeft<->PairRight, tuple order) equals RIGHT branch', key='_join:mirror')
+        from sfa.mirror import Mirror
+        mr = Mirror(j.node, {'PairLeft': 'PairRight'}, reversed_tuple_callees=('PairLeft', 'PairRight'))
+        if mr.check(branches['LEFT'], branches['RIGHT']):
+            pairs = sorted(f'{a}<->{b}' for a, b in mr.map.items() if a != b)
+            ctx.ok(R, j, branches['LEFT'][0], f'LEFT branch mirrored (left-sided <-> right-sided locals {pairs}, PairLeft<->PairRight, tuple order) equals RIGHT branch', key='_join:mirror')
         else:
-            ctx.bad(R, j, branches['RIGHT'][0], f'LEFT and RIGHT branches are not mirror images: mirrored LEFT = `{a}` vs RIGHT = `{b}`', key='_join:mirror')
+            ctx.bad(R, j, branches['RIGHT'][0], f'LEFT and RIGHT branches are not mirror images: {mr.why}', key='_join:mirror')
 
 
 def _mirror_text(stmts: tp.Sequence[ast.stmt]) -> str:
